@@ -280,6 +280,19 @@ def gen_burst_case(rng: random.Random) -> dict:
     return {"family": "session", "kind": "burst", "knobs": gen_knobs(rng), "client": client, "device": device, "net": {"cuts": pick(rng, [{"mode": "coalesce"}, {"mode": "coalesce"}, {"mode": "sends"}]), "c2d_latency": pick(rng, [0.0, 0.001]), "d2c_latency": [pick(rng, [0.0, 0.001])]}, "actors": actors, "events": [], "end": 200.0}
 
 
+def gen_raiser_case(rng: random.Random) -> dict:
+    """A subscriber callback of the application raises while requests are outstanding: the exception travels out of
+    data_received, the transport reports it with connection_lost - the waiting calls still end with a classified error."""
+    client: dict = {"addresses": ["10.0.0.5"], "keepalive": 20.0}
+    device: dict = {"replies": {"DeviceInfoRequest": ["silent"], "ListEntitiesRequest": ["silent"]}}
+    gen_transport(rng, client, device, noise_p=0.3)
+    actors = [{"id": "a0", "at": {"t": 0.0}, "steps": [{"do": "connect", "login": rng.random() < 0.5}, {"do": "add_cb", "sid": "s0", "types": ["SensorStateResponse"], "behaviors": [{"on_call": 1, "do": "raise"}]}, {"do": "sleep", "d": 5.0}, {"do": "disconnect"}]}]
+    for j in range(rng.randint(1, 3)):
+        actors.append({"id": f"w{j}", "at": {"on": "state", "match": {"new": "CONNECTED"}, "delay": pick(rng, [0.0, 0.001, 0.1])}, "steps": [{"do": pick(rng, ["device_info", "list_entities"])}], "eager": rng.random() < 0.7})
+    events = [{"at": {"on": "state", "match": {"new": "CONNECTED"}, "delay": pick(rng, [0.2, 0.5])}, "do": "dev", "act": {"msgs": [["SensorStateResponse", {"key": 2, "state": 1.0}]] + ([["SwitchStateResponse", {"key": 1, "state": True}]] if rng.random() < 0.5 else []), "latency": 0.0}}]
+    return {"family": "session", "kind": "raiser", "knobs": gen_knobs(rng), "client": client, "device": device, "net": {"cuts": {"mode": "coalesce"}, "c2d_latency": 0.001, "d2c_latency": [0.001]}, "actors": actors, "events": events, "end": 200.0}
+
+
 class C09(CheckBase):
     pid = "C09"
     level = "fault_enumeration"
@@ -316,7 +329,7 @@ class C09(CheckBase):
                 yield b
         else:
             for k in range(30 if tier == "quick" else 60):
-                yield gen_burst_case(rng) if k % 6 == 5 else gen_connect_fault_case(rng)
+                yield gen_burst_case(rng) if k % 6 == 5 else (gen_raiser_case(rng) if k % 6 == 4 else gen_connect_fault_case(rng))
 
     def oracle(self, run: Any, scn: dict) -> list[Violation]:
         ix = Index(run.history)
